@@ -82,6 +82,10 @@ def _locate(binary_cfg, binary_base, opname, tier, opinfo):
     return {'domain': d, 'index': idx, 'in': ja['in'], 'got_cfg': ja['got'], 'got_base': jb['got']}
 
 def run_differential(prop, spec, tier, known_ids, t0, args):
+    results, extra_viol, extra_known, cov = _differential(prop, spec, tier)
+    return G.report(prop, tier, spec['level'], results, spec['rule'], t0, extra_cov=cov, extra_viol=extra_viol, extra_known=extra_known)
+
+def _differential(prop, spec, tier):
     """compile the same drivers under a baseline and under each configuration; per-op observation digests must be equal"""
     table = spec['table_thorough'] if tier == 'thorough' else spec['table_quick']
     _CAP[0] = spec.get('cap')
@@ -138,7 +142,27 @@ def run_differential(prop, spec, tier, known_ids, t0, args):
                 extra_viol.append(v)
     cov = {'configurations_compared_with_baseline': cfgs, 'baseline': base, 'op_digests_compared': compared, 'op_digests_differing': differing,
            'operation_table': [f"{s_}{'[parts ' + ','.join(map(str, p_)) + ']' if p_ is not None else ''}" for (s_, p_, l, f) in table]}
-    return G.report(prop, tier, spec['level'], results, spec['rule'], t0, extra_cov=cov, extra_viol=extra_viol, extra_known=extra_known)
+    return results, extra_viol, extra_known, cov
+
+def run_c03(prop, spec, tier, known_ids, t0, args):
+    """(b) aligned vs packed inside each ISA build (driver c03.cpp) + (a) packed@ISA == PURE by digests"""
+    cfgs = spec['configs_thorough'] if tier == 'thorough' else spec['configs_quick']
+    jobs, meta = [], []
+    for c in cfgs:
+        for k in spec['part_list']:
+            jobs.append((spec['src'], c, tuple(spec.get('flags', [])) + (f'-DGLMX_PART={k}',), f'c03p{k}', (), ())); meta.append(c)
+    bins = G.build_many(jobs)
+    from concurrent.futures import ThreadPoolExecutor
+    def one(bc):
+        b, c = bc
+        return G.run_driver(b, prop, c, tier, known_ids, threads=4, quiet=True)
+    with ThreadPoolExecutor(max_workers=4) as ex:
+        results = list(ex.map(one, zip(bins, meta)))
+    for r in results:
+        r['_src'] = spec['src']
+    dres, dviol, dknown, dcov = _differential(prop, spec, tier)
+    cov = {'aligned_vs_packed_configurations': cfgs, 'packed_isa_vs_pure': dcov}
+    return G.report(prop, tier, spec['level'], results + dres, spec['rule'], t0, extra_cov=cov, extra_viol=dviol, extra_known=dknown, src=spec['src'])
 
 def _kf_case_ok(k, loc):
     """a known finding of a differential check names the op, the configuration and a predicate on the first differing input"""
@@ -254,6 +278,15 @@ _C20_TABLE_T = [('drivers/c01.cpp', list(range(15)), [], [])] + _C20_TABLE_Q[1:7
                 ('drivers/c04.cpp', None, [], []), ('drivers/c08.cpp', None, [], ['-DC08_HAVE_INFINITEPERSPECTIVE_LH_RH']), ('drivers/c09.cpp', None, [], ['-DC09_RECOMPOSE_DOUBLE']), ('drivers/c10.cpp', None, [], [])]
 
 PROPS = {
+ 'C03': dict(run=run_c03, src='drivers/c03.cpp', level='exploration', part_list=[0, 1, 2, 3, 4, 5, 6, 7, 8, 9, 10, 11, 13],   # part 12 = raw glm_* kernels that no vec/mat/quat operation reaches: outside the statement
+   flags=['-DC03_TRY_ALL'], cap=20000, baseline='pure',
+   configs_quick=['intr_sse2', 'intr_avx2_fma'],
+   configs_thorough=['intr_sse2', 'intr_sse3', 'intr_ssse3', 'intr_sse41', 'intr_sse42', 'intr_avx', 'intr_avx2', 'intr_avx2_fma', 'intr_sse2_wxyz', 'intr_avx2_wxyz', 'intr_sse2_clang'],
+   table_quick=[('drivers/c01.cpp', [0, 3, 5], [], ['-O1']), ('drivers/c12.cpp', None, [], []), ('drivers/c13.cpp', None, [], [])],
+   table_thorough=[('drivers/c01.cpp', [0, 1, 2, 3, 4, 5, 6, 7, 8], [], ['-O1']), ('drivers/c12.cpp', None, [], []), ('drivers/c13.cpp', None, [], []), ('drivers/c02.cpp', [0, 1, 2], [], ['-O1']), ('drivers/c04.cpp', None, [], []), ('drivers/c10.cpp', None, [], [])],
+   technique='exhaustive differential exploration over instruction-set configurations: in every ISA build each operation is evaluated on aligned (SIMD) and packed (generic) operands built from bit-identical components over complete special-value products / matrix and quaternion grids, and the packed results of every ISA build must equal the GLM_FORCE_PURE build digest for digest',
+   text='(b) inside each build (-msse2 ... -mavx2 -mfma, both quaternion layouts, g++ and clang++) every operation that has or routes through an Aligned=true specialisation is run on aligned_{highp,mediump,lowp} and packed operands: identical values for integer/bitwise/comparison/selection/conversion/rounding/single-rounding operations, c.u.sum|terms| for multi-term expressions, 2^-11 relative for lowp reciprocal/rsqrt kernels, identical branch decisions for refract/faceforward/==. Aligned vec3 operands are produced through every API-reachable construction path so that the hidden fourth lane is exercised. (a) the packed path of every ISA build is compared with the GLM_FORCE_PURE build by per-operation observation digests.',
+   rule='SPEC^n products, EDGE lattices for unary ops, {-1,0,1,2}^8 vector grids, all {0,1}^16 matrix patterns x 3 variants, unit-vector x eta grids incl. the critical ratio and its float neighbours; 14 parts x ISA configurations.'),
  'C20': dict(run=run_sanitize, replay=replay_sanitize, level='exploration', src='drivers/c01.cpp', table_quick=_C20_TABLE_Q, table_thorough=_C20_TABLE_T,
    configs_quick=['ubsan'], configs_thorough=['ubsan', 'ubsan_avx2'], cap_quick=20000, cap_thorough=200000,
    technique='exhaustive enumeration of the other properties\' input domains (restricted by each function\'s documented precondition) through clang UndefinedBehaviorSanitizer + AddressSanitizer instrumented builds of the same drivers; the sanitizer runtime is the oracle and its report hook attributes every report to the (operation, input) being evaluated',
